@@ -4210,11 +4210,32 @@ impl Context {
                 let mut case_results: Vec<VPtr> = Vec::new();
                 let mut all_states: Vec<StateSkeleton> = Vec::new();
 
+                // Only one case runs, and the cases' state cells are laid out one after another:
+                // generate every case from the state cursor reached at the switch, moved past the
+                // cells of the cases listed before it, and let every case end behind all of them.
+                let (switch_push_sum, switch_pending) = {
+                    let data = self.get_ctxdata();
+                    (data.push_sum, data.next_state_offset.unwrap_or(0))
+                };
+                let mut cases_state_size: u64 = 0;
+                // (last block of the case, cursor reached at its end)
+                let mut case_ends: Vec<(usize, u64)> = vec![];
+
                 for (val, subtree) in cases {
                     self.add_new_basicblock();
                     let block_idx = self.get_ctxdata().current_bb as u64;
+                    {
+                        let start_offset = switch_pending + cases_state_size;
+                        let data = self.get_ctxdata();
+                        data.push_sum = switch_push_sum;
+                        data.next_state_offset = (start_offset > 0).then_some(start_offset);
+                    }
                     let (result, states) =
                         self.compile_decision_tree(subtree, tuple_val, tuple_ty, elem_types);
+                    // emit the case's pending cursor move inside the case
+                    self.consume_and_insert_pushoffset();
+                    cases_state_size += states.iter().map(|s| s.total_size()).sum::<u64>();
+                    case_ends.push((self.get_ctxdata().current_bb, self.get_ctxdata().push_sum));
                     case_blocks.push((*val, block_idx));
                     case_results.push(result);
                     all_states.extend(states);
@@ -4224,14 +4245,36 @@ impl Context {
                 let default_block_idx = if let Some(default_tree) = default {
                     self.add_new_basicblock();
                     let block_idx = self.get_ctxdata().current_bb as u64;
+                    {
+                        let start_offset = switch_pending + cases_state_size;
+                        let data = self.get_ctxdata();
+                        data.push_sum = switch_push_sum;
+                        data.next_state_offset = (start_offset > 0).then_some(start_offset);
+                    }
                     let (result, states) =
                         self.compile_decision_tree(default_tree, tuple_val, tuple_ty, elem_types);
+                    self.consume_and_insert_pushoffset();
+                    cases_state_size += states.iter().map(|s| s.total_size()).sum::<u64>();
+                    case_ends.push((self.get_ctxdata().current_bb, self.get_ctxdata().push_sum));
                     case_results.push(result);
                     all_states.extend(states);
                     Some(block_idx)
                 } else {
                     None
                 };
+
+                // Every case ends behind the cells of all cases: pad the ones that stopped earlier
+                let common_sum = switch_push_sum + switch_pending + cases_state_size;
+                for (end_bidx, end_sum) in case_ends {
+                    if end_sum < common_sum {
+                        let block = self.get_current_fn().body.get_mut(end_bidx).unwrap();
+                        block.0.push((
+                            Arc::new(Value::None),
+                            Instruction::PushStateOffset(common_sum - end_sum),
+                        ));
+                    }
+                }
+                self.get_ctxdata().push_sum = common_sum;
 
                 // Generate merge block
                 self.add_new_basicblock();
